@@ -154,6 +154,28 @@ def runSeq (p : Path) : List Step → FS → FS
   | [], fs => fs
   | s :: ss, fs => runSeq p ss (exec (storeAtomic p s.tmp s.new) s.fault fs)
 
+/-! ### one long-lived store object: stores and reads interleaved -/
+
+/-- what the application does with its store object. The object holds nothing but the path (no cache): a read is a
+    read of the file as it is at that moment. -/
+inductive ObjOp where
+  | get
+  | store (s : Step)
+deriving Repr
+
+/-- the results of the reads, in order -/
+def runObj (p : Path) : List ObjOp → FS → List (Option Bytes)
+  | [], _ => []
+  | .get :: r, fs => fs p :: runObj p r fs
+  | .store s :: r, fs => runObj p r (exec (storeAtomic p s.tmp s.new) s.fault fs)
+
+/-- the specification: a read returns the last SUCCESSFULLY stored content (`cur`; `none` = nothing stored yet) -/
+def specObj (p : Path) : List ObjOp → Option Bytes → List (Option Bytes)
+  | [], _ => []
+  | .get :: r, cur => cur :: specObj p r cur
+  | .store s :: r, cur =>
+    specObj p r (if status (storeAtomic p s.tmp s.new) s.fault = .ok then some s.new else cur)
+
 /-- the getters: `os.ReadFile` then decode -/
 def readBack {V : Type} (decode : Bytes → Option V) (fs : FS) (p : Path) : Option V :=
   match fs p with
